@@ -341,7 +341,7 @@ def run_model(tag, imports, case_type, run_fn, cases, shard=250, timeout=900, pr
         while pending or running:
             while pending and len(running) < NCPU:
                 fn = pending.pop(0)
-                cmd = ['bash', '-c', 'ulimit -s unlimited 2>/dev/null || ulimit -s 1000000 2>/dev/null; '
+                cmd = ['bash', '-c', 'ulimit -s 2000000 2>/dev/null; '
                        'exec timeout %d coqc -q -R %s Vakt -w -all %s' % (timeout, COQ, fn)]
                 pr = subprocess.Popen(cmd, cwd=work, stdout=subprocess.PIPE, stderr=subprocess.PIPE, text=True)
                 running.append((fn, pr))
